@@ -56,7 +56,7 @@ pub struct TableProvider {
     pub sched: Option<Rc<Sched>>,
     pub probe: Cell<SortProbe>,
     /// observations made by the probing sort: (solvable id, are_dependencies_available_for)
-    pub probe_log: RefCell<Vec<(u32, bool)>>,
+    pub probe_log: RefCell<Vec<(u32, bool, bool)>>,
     /// record Filter/Sort calls too (off by default to keep logs small)
     pub log_all: Cell<bool>,
 }
@@ -263,7 +263,28 @@ impl DependencyProvider for TableProvider {
         if self.probe.get() == SortProbe::On {
             for &s in solvables.iter() {
                 let avail = solver.are_dependencies_available_for(s);
-                self.probe_log.borrow_mut().push((s.0, avail));
+                // expected at this very moment: hinted by its (necessarily fetched) package,
+                // or its dependencies have been handed to the cache already
+                let r = self.sref(s);
+                let pk = &self.u.packages[r.pkg];
+                let pkg_fetched = self
+                    .log
+                    .borrow()
+                    .iter()
+                    .any(|c| matches!(c, Call::GetCandidates(n) if *n == pk.name_id));
+                let hinted = r.listed
+                    && pkg_fetched
+                    && match &pk.hint {
+                        Hint::None => false,
+                        Hint::All => true,
+                        Hint::Some(v) => v.contains(&r.idx),
+                    };
+                let fetched = self
+                    .log
+                    .borrow()
+                    .iter()
+                    .any(|c| matches!(c, Call::GetDependencies(x) if *x == s.0));
+                self.probe_log.borrow_mut().push((s.0, avail, hinted || fetched));
             }
             if let Some(&first) = solvables.first() {
                 // re-entrant cache queries, as rattler's conda provider does
